@@ -66,24 +66,42 @@ func (se *expression) Type(scope ReadOnlyScope) (ast.ValueType, error) {
 	return se.nodeEvaluator.Type(scope)
 }
 
-func (se *expression) EvalBool(scope *Scope) (bool, error) {
+func (se *expression) EvalBool(scope *Scope) (_ bool, err error) {
+	defer recoverEvalPanic(&err)
 	return se.nodeEvaluator.EvalBool(scope, se.executionState)
 }
 
-func (se *expression) EvalInt(scope *Scope) (int64, error) {
+func (se *expression) EvalInt(scope *Scope) (_ int64, err error) {
+	defer recoverEvalPanic(&err)
 	return se.nodeEvaluator.EvalInt(scope, se.executionState)
 }
 
-func (se *expression) EvalFloat(scope *Scope) (float64, error) {
+func (se *expression) EvalFloat(scope *Scope) (_ float64, err error) {
+	defer recoverEvalPanic(&err)
 	return se.nodeEvaluator.EvalFloat(scope, se.executionState)
 }
 
-func (se *expression) EvalString(scope *Scope) (string, error) {
+func (se *expression) EvalString(scope *Scope) (_ string, err error) {
+	defer recoverEvalPanic(&err)
 	return se.nodeEvaluator.EvalString(scope, se.executionState)
 }
 
-func (se *expression) EvalDuration(scope *Scope) (time.Duration, error) {
+func (se *expression) EvalDuration(scope *Scope) (_ time.Duration, err error) {
+	defer recoverEvalPanic(&err)
 	return se.nodeEvaluator.EvalDuration(scope, se.executionState)
+}
+
+// recoverEvalPanic turns a panic raised while evaluating an expression
+// (for example by a built-in function) into an evaluation error.
+func recoverEvalPanic(err *error) {
+	if r := recover(); r != nil {
+		switch r := r.(type) {
+		case error:
+			*err = r
+		default:
+			*err = fmt.Errorf("%v", r)
+		}
+	}
 }
 
 func (se *expression) EvalMissing(scope *Scope) (*ast.Missing, error) {
